@@ -624,7 +624,7 @@ def kron_case(draw, tier):
         }
     if family == "process":
         # unit cost of one |HS>>x|HS>> permutation grows like d^8: d=4 0.1 s, d=6 0.6 s, d=8 2 s, d=9 5 s
-        heavy = draw(st.integers(0, 19 if tier == "quick" else 9))
+        heavy = draw(st.integers(0, 9 if tier == "quick" else 5))
         if heavy == 0:
             dims = draw(st.sampled_from([[2, 2, 2], [3, 3]]))
         else:
@@ -632,8 +632,10 @@ def kron_case(draw, tier):
         k = len(dims)
         d = int(np.prod(dims))
         pool = draw(st.permutations([2, 3, 4] if d == 4 else [2, 3]))
-        if d >= 8:
+        if d == 9:
             n_mp = draw(st.integers(0, 1))
+        elif d == 8:  # two measurement processes among three factors: G x (M x M), (M x G) x M, ...
+            n_mp = draw(st.sampled_from([0, 1, 1, 2]))
         else:
             n_mp = draw(st.sampled_from([0, 1, 1, 2, 2, 2]))
         slots = draw(st.permutations(list(range(k))))
@@ -865,7 +867,10 @@ def check_product_statistics(case, ctx):
 def stats_case(draw, tier):
     chain = draw(st.sampled_from(["full", "full", "sp"]))
     if chain == "full":
-        dims = draw(st.sampled_from([[2, 2], [2, 2], [2, 3], [3, 2]]))
+        if draw(st.integers(0, 11 if tier == "quick" else 7)) == 0:
+            dims = draw(st.sampled_from([[2, 2, 2], [3, 3]]))
+        else:
+            dims = draw(st.sampled_from([[2, 2], [2, 2], [2, 3], [3, 2]]))
     else:
         dims = draw(st.sampled_from(DIMS_VEC_SMALL))
     k = len(dims)
@@ -886,7 +891,7 @@ def stats_case(draw, tier):
     }
     if chain == "full":
         mpool = draw(st.permutations([2, 3, 4] if d == 4 else [2, 3]))
-        n_mp = draw(st.sampled_from([1, 1, 2]))
+        n_mp = 1 if d >= 8 else draw(st.sampled_from([1, 1, 2]))
         slots = draw(st.permutations(list(range(k))))
         mp_at = set(slots[:n_mp])
         mps, j = [], 0
@@ -971,7 +976,7 @@ def check_factorwise(case, ctx):
 
 @st.composite
 def factorwise_case(draw, tier):
-    heavy = draw(st.integers(0, 24 if tier == "quick" else 11))
+    heavy = draw(st.integers(0, 9 if tier == "quick" else 5))
     if heavy == 0:
         dims = draw(st.sampled_from([[2, 2, 2], [3, 3]]))
     else:
@@ -1070,7 +1075,10 @@ def check_embedding(case, ctx):
     eq, neg = _physical_defects(t, b4, emb)
     ctx.leq(eq, 0.0, tol, "embed_physical_eq", f"{t}: trace / identity-sum / TP defect of the embedded object")
     ctx.leq(neg, 0.0, tol, "embed_physical_ineq", f"{t}: most negative eigenvalue of the embedded object")
-    ctx.check(bool(emb.is_physical(1e-8, 1e-8)), "embed_is_physical_verdict", "quara's own verdict at atol 1e-8")
+    if nq == 1 or t in ("state", "povm"):
+        # (quara's CP verdict on 4 qubits builds 65 536 sparse Kronecker products per composite system: ~1 min; the
+        # physicality oracle above does not depend on it)
+        ctx.check(bool(emb.is_physical(1e-8, 1e-8)), "embed_is_physical_verdict", "quara's own verdict at atol 1e-8")
 
     # statistics of embedded inputs: everything on the qubit side comes from quara's embedding, the qutrit side from refmodel
     es2 = list(emb.composite_system.elemental_systems)
@@ -1116,7 +1124,8 @@ def embedding_case(draw, tier):
     elif t == "povm":
         case["obj"] = draw(gen.povm_case(shp, (2, 4)))
     elif t == "gate":
-        case["obj"] = draw(gen.gate_case(shp, max_rank=3))
+        # 2 qutrits: the depolarising kind has rank 81 and quara's embedding of it takes > 1 min; ranks <= 3 only
+        case["obj"] = draw(gen.gate_case(shp, max_rank=3).filter(lambda c: not (two and c["kind"] == "depol")))
     else:
         case["obj"] = draw(gen.mprocess_case(shp, (2, 4), max_per=2))
         if case["obj"]["m"] == 4 and draw(st.booleans()):
@@ -1133,7 +1142,7 @@ FACETS = {
     "kron_order": {
         "strategy": kron_case,
         "check": check_kron_order,
-        "budget": {"quick": {"examples": 640, "shards": 8}, "thorough": {"examples": 12000, "shards": 16}},
+        "budget": {"quick": {"examples": 640, "shards": 8}, "thorough": {"examples": 6400, "shards": 16}},
         "nontrivial": "names not ascending and (k >= 3 or different outcome counts or dims 2/3 mixed), at least one grouping "
                       "evaluated; basis family: k >= 3 or mixed dims",
         "min_nontrivial": 40,
@@ -1149,21 +1158,21 @@ FACETS = {
     "product_statistics": {
         "strategy": stats_case,
         "check": check_product_statistics,
-        "budget": {"quick": {"examples": 300, "shards": 3}, "thorough": {"examples": 6000, "shards": 16}},
+        "budget": {"quick": {"examples": 500, "shards": 2}, "thorough": {"examples": 8000, "shards": 16}},
         "nontrivial": "at least one of the products (state, gate, mprocess, POVM) is formed with arguments not in ascending name",
         "min_nontrivial": 30,
     },
     "factorwise_action": {
         "strategy": factorwise_case,
         "check": check_factorwise,
-        "budget": {"quick": {"examples": 300, "shards": 2}, "thorough": {"examples": 5000, "shards": 16}},
+        "budget": {"quick": {"examples": 500, "shards": 2}, "thorough": {"examples": 8000, "shards": 16}},
         "nontrivial": "arguments not in ascending name and (entangled input or k >= 3 or mixed dims or a measurement process factor)",
         "min_nontrivial": 30,
     },
     "embedding": {
         "strategy": embedding_case,
         "check": check_embedding,
-        "budget": {"quick": {"examples": 260, "shards": 2}, "thorough": {"examples": 4000, "shards": 16}},
+        "budget": {"quick": {"examples": 390, "shards": 3}, "thorough": {"examples": 4800, "shards": 16}},
         "nontrivial": "every case (generated physical qutrit object, generated embedded input and probe POVM)",
         "min_nontrivial": 30,
     },
